@@ -306,6 +306,10 @@ fn run(ctx: &Ctx) -> Report {
 }
 
 fn replay(_ctx: &Ctx, stage: &str, case: &Value) -> Result<(), String> {
+    if let Some(t) = stage.strip_prefix("fuzz:") {
+        let data = hex::decode(case["hex"].as_str().unwrap_or("")).map_err(|e| format!("HARNESS: {e}"))?;
+        return crate::fuzzing::by_name(t, &data);
+    }
     let bad = |e: serde_json::Error| format!("HARNESS: bad replay case: {e}");
     match stage {
         "refimpl->reader" => backward(&serde_json::from_value(case.clone()).map_err(bad)?, &mut Stats::default()),
